@@ -12,7 +12,7 @@ PROP = "C16"
 RULE = (
     "code bases of 2-12 files whose contents are drawn from a pool of 8 byte strings (empty, differing only in the last "
     "byte, differing only in length, CR vs LF, non-UTF-8 bytes), so equivalence classes of every size occur, with twins "
-    "that are excluded by pattern, outside the root, non-source files, or symbolic links (to files inside and outside); "
+    "that are excluded by pattern, outside the root, non-source files, fixed-form Fortran files, or symbolic links (to files inside and outside); "
     "the code base is sometimes given further directories that overlap, repeat or lie beside the first. "
     "Oracle: direct byte-wise partition of the non-symlink members of list(codebase); the groups of size >= 2 must equal "
     "the reported groups exactly as a set of sets (in-process report.find_duplicates and the Duplicates section of "
@@ -20,6 +20,8 @@ RULE = (
     "excluded/linked/outside/non-source twin; distinct by layout."
 )
 ASSUMPTIONS = ["code-base membership is taken from CodeBase itself (C09/C15 check it)"]
+
+SIG_FIXED_FORM = "cli:fixed-form-fortran-file-aborts-every-report"
 
 POOL = [b"", b"int a;\n", b"int a;\r", b"int a;\n\n", b"int a;", b"int b;\n", b"\xff\xfe\x00bin\n", b"int a;\n/* x */\n", b"\xff\xfe\x00bin\r"]
 DIRS = ["", "src", "src/a", "lib", "excl", "../ext"]
@@ -44,6 +46,11 @@ def case_strategy():
             links[(d + "/" if d else "") + f"l{j}{os.path.splitext(tgt)[1]}"] = os.path.relpath(tgt, d or ".")
         excludes = draw(st.sampled_from([[], [], ["excl/"], ["*.h"], ["/src/a/"], ["excl/", "*.cpp"]]))
         # files that come out of an archive or a checkout often share one modification time
+        # now and then a fixed-form Fortran file (recognised as a source file like the others)
+        if draw(st.integers(0, 7)) == 0:
+            k0 = sorted(files)[0]
+            files[os.path.splitext(k0)[0] + draw(st.sampled_from([".f", ".F", ".for"]))] = files.pop(k0)
+            links = {ln: t for ln, t in links.items() if not t.endswith(os.path.basename(k0))}
         # a code base may be given several directories; they may overlap or repeat
         roots = draw(st.sampled_from([[], [], [], ["src"], ["src/a", "src"], ["."], ["lib", "src/a"], ["../ext"]]))
         return {"files": files, "links": links, "excludes": excludes, "same_mtime": draw(st.booleans()), "roots": roots}
@@ -63,7 +70,8 @@ def check_case(case, res: Result, cli=False):
             for k in case["files"]:
                 os.utime(os.path.join(root, k), ns=(1_600_000_000_000_000_000, 1_600_000_000_000_000_000))
         filecmp.clear_cache()
-        extra_roots = [os.path.join(root, r) for r in case.get("roots", []) if os.path.isdir(os.path.join(root, r))]
+        # (the command-line front end knows one root directory only)
+        extra_roots = [] if cli else [os.path.join(root, r) for r in case.get("roots", []) if os.path.isdir(os.path.join(root, r))]
         cb = CodeBase(root, *extra_roots, exclude_patterns=list(case["excludes"]))
         members = [p for p in cb if not os.path.islink(p)]
         by = {}
@@ -89,7 +97,10 @@ def check_case(case, res: Result, cli=False):
                     f.write("[codebase]\nexclude = [" + ", ".join('"%s"' % e for e in case["excludes"]) + "]\n")
                 f.write('[platform.p]\ncommands = "db.json"\n')
             rc, out, err = observe.run_cli("codebasin", ["-R", "duplicates", "analysis.toml"], cwd=root)
-            if rc != 0:
+            if rc != 0 and "Could not determine language" in (out + err) and any(k.endswith((".f", ".F", ".for")) for k in case["files"]):
+                # known finding: fixed-form Fortran is a recognised source language without a line source
+                vs.append(make_violation(SIG_FIXED_FORM, case, 0, [rc, (out + err)[-300:]]))
+            elif rc != 0:
                 vs.append(make_violation("cli:exit", case, 0, [rc, out[-300:], err[-300:]]))
             else:
                 sec = out.split("Duplicates", 1)[-1]
@@ -133,4 +144,4 @@ def run(ctx):
 
 def replay(case):
     core.setup_import_path()
-    return check_case(case, Result(), cli=False)
+    return check_case(case, Result(), cli=bool(case.get("cli")))
